@@ -99,6 +99,7 @@ PROPS["C14"] = {
         "tests": [T("TestC14JSON", {"checks": 1200, "shards": 2}, {"checks": 8000, "shards": 8}),
                   T("TestC14Unique", {"checks": 800, "shards": 2}, {"checks": 5000, "shards": 8}),
                   T("TestC14ConcurrentErrors", {"checks": 24, "shards": 4}, {"checks": 400, "shards": 8}),
+                  T("TestC14Backlog", {"checks": 6, "shards": 4}, {"checks": 100, "shards": 8}),
                   T("TestC14UniqueLarge", {"checks": 30, "shards": 2}, {"checks": 300, "shards": 8})],
     }, {
         "pkg": "command/log", "fuzz": True, "thorough_only": True,
